@@ -105,6 +105,13 @@ Ltac unf := unfold endc, setph, updk, updc, enq, deq, set_protocol, set_conns, s
 Lemma sched_lost_cases c s : sched_lost c s = s \/ sched_lost c s = enq (ILost c) s.
 Proof. unfold sched_lost. destruct (held (nth c (conns s) dead_conn)); auto. Qed.
 
+Lemma getk_sched_lost c s k : getk (sched_lost c s) k = getk s k.
+Proof. destruct (sched_lost_cases c s) as [Y|Y]; rewrite Y; reflexivity. Qed.
+Lemma getc_sched_lost c s c' : getc (sched_lost c s) c' = getc s c'.
+Proof. destruct (sched_lost_cases c s) as [Y|Y]; rewrite Y; reflexivity. Qed.
+Lemma conns_sched_lost c s : conns (sched_lost c s) = conns s.
+Proof. destruct (sched_lost_cases c s) as [Y|Y]; rewrite Y; reflexivity. Qed.
+
 Lemma wake_first_callers s : callers (wake_first s) = callers s.
 Proof. unfold wake_first. destruct (waiters s) as [|[k []] r]; auto. Qed.
 Lemma wake_first_conns s : conns (wake_first s) = conns s.
@@ -213,10 +220,13 @@ Proof.
   unfold proc_close. cbv zeta.
   match goal with |- context [terminate c ?t] => destruct (terminate_spec c t) as (A & B & C & D & E & F & G & H) end.
   rewrite A, B, C, D, E, F, G, H. clear.
-  destruct (closing (getc s c)) eqn:Ec; unf; simpl; repeat split; auto.
+  destruct (closing (getc s c)) eqn:Ec;
+    [|destruct (sched_lost_cases c (updc c (n_closing true) s)) as [X|X]; rewrite X; clear X];
+    unf; simpl; repeat split; auto.
   - unfold getc in Ec. revert c Ec. generalize (conns s). induction l; destruct c; simpl; auto; intros.
     + destruct a; simpl in *; subst; auto.
     + f_equal. apply IHl; auto.
+  - generalize (conns s) c. induction l; destruct c0; simpl; auto. f_equal; auto.
   - generalize (conns s) c. induction l; destruct c0; simpl; auto. f_equal; auto.
 Qed.
 
@@ -585,7 +595,8 @@ Proof.
     destruct (cancelp (getk s0 k)).
     + match goal with |- InvLock (endc k _ (release ?t)) => set (s1 := t) end.
       assert (P1 : phases s1 = phases s0 /\ waiters s1 = waiters s0).
-      { unfold s1. destruct a as [o|c| |]; auto. destruct (closing (getc s0 c)); auto. }
+      { unfold s1. destruct a as [o|c| |]; auto. destruct (closing (getc s0 c)); auto.
+        destruct (sched_lost_cases c (updc c (n_closing true) s0)) as [X|X]; rewrite X; auto. }
       destruct P1 as [P1 W1].
       eapply lock_exit with (s := s0) (k := k); eauto.
       * rewrite AT. auto.
@@ -746,6 +757,7 @@ Proof.
     match goal with |- InvLock (proc_close c ?t) => destruct (proc_close_spec c t) as (A & B & C & D & _) end.
     eapply lock_same; eauto.
   - destruct (valid_open s c); auto.
+    destruct (sched_lost_cases c (updc c (n_closing true) s)) as [X|X]; rewrite X; auto.
   - destruct (protocol s); [|eapply lock_same; eauto].
     destruct (proc_close_spec n s) as (A & B & C & D & _). eapply lock_same; eauto.
   - destruct (valid_open s c); auto.
@@ -756,6 +768,7 @@ Proof.
   - destruct (ph (getk s k)); auto. destruct (valid_open s c && negb (answered (getk s k))); auto.
     eapply lock_same_sig; eauto; try (rewrite ?mark_locked, ?mark_waiters; reflexivity).
     rewrite att_sig_mark. apply att_sig_updk_flag. auto.
+  - exact I.
 Qed.
 
 Lemma init_lock sc : InvLock (init sc).
@@ -1040,15 +1053,19 @@ Proof.
         destruct (closing (getc s0 c)) eqn:Ec.
         - repeat split; auto. intros c' Hc'. unfold aok in Hc'. rewrite <- G in Hc'. inversion Hc'; subst c'.
           unfold live_at. rewrite <- live_getc. unfold conn_live. rewrite Ec. rewrite andb_false_r. discriminate.
-        - split; [reflexivity|]. split; [reflexivity|]. split. { unf. simpl. apply upd_length. }
-          split.
-          + intros c'. unfold live_at, lives. unf. simpl. apply lives_upd_mono. intros []; simpl.
-            unfold conn_live; simpl. rewrite andb_false_r. discriminate.
-          + intros c' Hc'. unfold aok in Hc'. rewrite <- G in Hc'. inversion Hc'; subst c'.
-            unfold live_at. rewrite <- live_getc. unfold getc. unf. simpl.
-            assert (c < length (conns s0)).
-            { destruct I0 as (_ & _ & _ & D). apply (D k c). unfold aok. auto. }
-            rewrite nth_upd_same; auto. unfold conn_live. simpl. rewrite andb_false_r. discriminate. }
+        - assert (Z : let t := enq (ILost c) (updc c (n_closing true) s0) in
+                      phases t = phases s0 /\ protocol t = protocol s0 /\ length (conns t) = length (conns s0) /\
+                      (forall c0, live_at t c0 -> live_at s0 c0) /\ (forall c0, aok s0 k c0 -> ~ live_at t c0)).
+          { cbv zeta. split; [reflexivity|]. split; [reflexivity|]. split. { unf. simpl. apply upd_length. }
+            split.
+            + intros c'. unfold live_at, lives. unf. simpl. apply lives_upd_mono. intros []; simpl.
+              unfold conn_live; simpl. rewrite andb_false_r. discriminate.
+            + intros c' Hc'. unfold aok in Hc'. rewrite <- G in Hc'. inversion Hc'; subst c'.
+              unfold live_at. rewrite <- live_getc. unfold getc. unf. simpl.
+              assert (c < length (conns s0)).
+              { destruct I0 as (_ & _ & _ & D). apply (D k c). unfold aok. auto. }
+              rewrite nth_upd_same; auto. unfold conn_live. simpl. rewrite andb_false_r. discriminate. }
+          destruct (sched_lost_cases c (updc c (n_closing true) s0)) as [Y|Y]; rewrite Y; exact Z. }
       destruct X as (P1 & Pr1 & Len1 & M1 & Cl1).
       eapply live_after_attempt with (s := s0) (k := k) (v := PEnd (RExn ECancelled)); eauto.
       * unfold endc. rewrite phases_setph, phases_release, P1. reflexivity.
@@ -1202,10 +1219,13 @@ Proof.
     + apply aok_same; auto.
     + rewrite (natt_same s). auto. apply att_sig_phases. rewrite A. reflexivity.
   - (* KAClose *)
-    destruct (valid_open s c); auto. eapply live_mono; eauto; try reflexivity.
-    + unf. simpl. apply upd_length.
-    + intros c'. change (live_at (updc c (n_closing true) s) c' -> live_at s c'). apply lives_kill_mono.
-      intros []; unfold conn_live; simpl. rewrite andb_false_r. discriminate.
+    destruct (valid_open s c); auto.
+    assert (Z : InvLive (enq (ILost c) (updc c (n_closing true) s))).
+    { eapply live_mono; eauto; try reflexivity.
+      + unf. simpl. apply upd_length.
+      + intros c'. change (live_at (updc c (n_closing true) s) c' -> live_at s c'). apply lives_kill_mono.
+        intros []; unfold conn_live; simpl. rewrite andb_false_r. discriminate. }
+    destruct (sched_lost_cases c (updc c (n_closing true) s)) as [Y|Y]; rewrite Y; exact Z.
   - (* ChClose *)
     destruct (protocol s) eqn:Pr; [|exact I].
     destruct (proc_close_spec n s) as (A & B & _ & _ & _ & _ & _ & Cs).
@@ -1244,6 +1264,10 @@ Proof.
     + intros c'. unfold live_at, lives. rewrite mark_conns. auto.
     + intros j c'. unfold aok. rewrite phases_mark, phases_updk_flag; auto. tauto.
     + rewrite (natt_same s). auto. rewrite att_sig_mark. apply att_sig_updk_flag. auto.
+  - (* Hold *)
+    eapply live_mono; eauto; try reflexivity.
+    + unf. simpl. apply upd_length.
+    + intros c'. change (live_at (updc c (n_held true) s) c' -> live_at s c'). apply lives_kill_mono. intros []; auto.
 Qed.
 
 Definition Inv (s : state) : Prop := InvLock s /\ InvLive s.
@@ -1384,8 +1408,10 @@ Proof.
       exists v. exact Sh.
   - destruct (cancelp (getk s0 k)).
     + exists (PEnd (RExn ECancelled)). apply shape_quiet; [unfold endc; rewrite phases_setph, phases_release | unfold endc, setph, updk; simpl; rewrite release_fails | discriminate | discriminate].
-      * destruct a; try reflexivity. destruct (closing (getc s0 c)); reflexivity.
-      * destruct a; try reflexivity. destruct (closing (getc s0 c)); reflexivity.
+      * destruct a; try reflexivity. destruct (closing (getc s0 c)); try reflexivity.
+        destruct (sched_lost_cases c (updc c (n_closing true) s0)) as [Y|Y]; rewrite Y; reflexivity.
+      * destruct a; try reflexivity. destruct (closing (getc s0 c)); try reflexivity.
+        destruct (sched_lost_cases c (updc c (n_closing true) s0)) as [Y|Y]; rewrite Y; reflexivity.
     + destruct a; auto.
       * destruct (finish_ok_spec k c s0) as (v & P & _ & Q & _ & _ & _ & _ & F & _).
         destruct (quiet3_not_pos _ _ Q). exists v. apply shape_quiet; auto.
@@ -1453,6 +1479,7 @@ Proof.
     match goal with |- InvFail (proc_close c ?t) => destruct (proc_close_spec c t) as (A & _ & _ & _ & _ & F & _) end.
     apply fail_same with (s := s); auto. rewrite A. auto.
   - destruct (valid_open s c); auto.
+    destruct (sched_lost_cases c (updc c (n_closing true) s)) as [Y|Y]; rewrite Y; auto.
   - destruct (protocol s); auto.
     destruct (proc_close_spec n s) as (A & _ & _ & _ & _ & F & _).
     apply fail_same with (s := s); auto.
@@ -1465,6 +1492,7 @@ Proof.
   - destruct (ph (getk s k)); auto. destruct (valid_open s c && negb (answered (getk s k))); auto.
     apply fail_same with (s := s). auto. rewrite mark_fails. reflexivity.
     intros j. rewrite phases_mark, phases_updk_flag; auto.
+  - exact I.
 Qed.
 
 (* ---- (T3) an OSError reaches a caller only from its own failed attempt -------------------------- *)
@@ -1557,6 +1585,7 @@ Proof.
     + destruct (cancelp (getk s k)).
       * left. unfold endc, setph, updk. simpl. rewrite release_creates. destruct a; auto.
         destruct (closing (getc (deq (IRun k) s) c)); auto.
+        destruct (sched_lost_cases c (updc c (n_closing true) (deq (IRun k) s))) as [Y|Y]; rewrite Y; auto.
       * destruct a; auto.
         -- destruct (finish_ok_spec k c (deq (IRun k) s)) as (v & _ & _ & _ & _ & _ & _ & Cr & _). rewrite Cr. auto.
         -- destruct (finish_fail_spec k (deq (IRun k) s)) as (_ & _ & _ & _ & Cr & _). rewrite Cr. auto.
@@ -1570,6 +1599,7 @@ Proof.
   - destruct (valid_open s c); auto.
     match goal with |- context [proc_close c ?t] => destruct (proc_close_spec c t) as (_ & _ & _ & _ & Cr & _) end. auto.
   - destruct (valid_open s c); auto.
+    destruct (sched_lost_cases c (updc c (n_closing true) s)) as [Y|Y]; rewrite Y; auto.
   - destruct (protocol s); auto. destruct (proc_close_spec n s) as (_ & _ & _ & _ & Cr & _). auto.
   - destruct (valid_open s c); auto.
   - destruct (valid_open s c && paused (getc s c)); auto. fold (resume1 c).
@@ -1674,6 +1704,7 @@ Proof.
   - destruct (cancelp (getk s k)).
     + apply end_good. discriminate. rewrite phases_length_release.
       destruct a; auto. destruct (closing (getc (deq (IRun k) s) c)); auto.
+      destruct (sched_lost_cases c (updc c (n_closing true) (deq (IRun k) s))) as [Y|Y]; rewrite Y; auto.
     + destruct a; try (eapply SAME; eauto; fail).
       * apply finish_ok_good; auto. apply (OA c). reflexivity.
       * unfold finish_fail. apply end_good. discriminate. rewrite phases_length_release. exact Kl.
@@ -1781,12 +1812,13 @@ Proof.
   intros H E. pose proof (in_calls_lt _ _ _ H) as Lc. unfold proc_close. cbv zeta. unfold terminate.
   match goal with |- context [fold_left _ ?l ?t] => set (l0 := l); set (s1 := t) end.
   assert (E1 : ph (getk s1 k) = PReg c).
-  { unfold s1. destruct (closing (getc s c)); exact E. }
+  { unfold s1. destruct (closing (getc s c)). exact E.
+    change (ph (getk (sched_lost c (updc c (n_closing true) s)) k) = PReg c). rewrite getk_sched_lost. exact E. }
   assert (H1 : In k l0).
   { unfold l0, s1. destruct (closing (getc s c)).
     - rewrite getc_updc_same; auto.
-    - rewrite getc_updc_same. simpl. change (getc (enq (ILost c) (updc c (n_closing true) s)) c) with (getc (updc c (n_closing true) s) c).
-      rewrite getc_updc_same; auto. simpl. unf. simpl. rewrite upd_length. auto. }
+    - rewrite getc_updc_same. simpl. rewrite getc_sched_lost.
+      rewrite getc_updc_same; auto. rewrite conns_sched_lost. unf. simpl. rewrite upd_length. auto. }
   split. apply fold_terminate_hits; auto.
   destruct (fold_terminate_keeps c l0 s1 k) as [A _]. congruence.
 Qed.
